@@ -29,7 +29,15 @@ PRELUDE = r"""
 #include <stdint.h>
 #include <stddef.h>
 typedef uint8_t CData; typedef uint16_t SData; typedef uint32_t IData; typedef uint64_t QData;
-typedef struct { bool m_flags[1]; } VlTriggerVec1;
+typedef struct { bool m_flags[1]; } VlTriggerVec1; typedef struct { bool m_flags[2]; } VlTriggerVec2; typedef struct { bool m_flags[3]; } VlTriggerVec3;
+typedef struct { bool m_flags[4]; } VlTriggerVec4; typedef struct { bool m_flags[5]; } VlTriggerVec5; typedef struct { bool m_flags[6]; } VlTriggerVec6;
+typedef struct { bool m_flags[7]; } VlTriggerVec7; typedef struct { bool m_flags[8]; } VlTriggerVec8;
+/* VlTriggerVec<N> operations (verilated_types.h semantics: bitset of N triggers), loop-free for N <= 8 */
+#define VL_TV_N(x) (sizeof((x).m_flags) / sizeof((x).m_flags[0]))
+#define VL_TV_F(x, k) (VL_TV_N(x) > (k) && (x).m_flags[VL_TV_N(x) > (k) ? (k) : 0])
+#define VL_TV_ANY(x) (VL_TV_F(x, 0) || VL_TV_F(x, 1) || VL_TV_F(x, 2) || VL_TV_F(x, 3) || VL_TV_F(x, 4) || VL_TV_F(x, 5) || VL_TV_F(x, 6) || VL_TV_F(x, 7))
+#define VL_TV_EACH(x, k, e) do { if (VL_TV_N(x) > (k)) (x).m_flags[VL_TV_N(x) > (k) ? (k) : 0] = (e); } while (0)
+#define VL_TV_ALL(x, E) do { VL_TV_EACH(x, 0, E(0)); VL_TV_EACH(x, 1, E(1)); VL_TV_EACH(x, 2, E(2)); VL_TV_EACH(x, 3, E(3)); VL_TV_EACH(x, 4, E(4)); VL_TV_EACH(x, 5, E(5)); VL_TV_EACH(x, 6, E(6)); VL_TV_EACH(x, 7, E(7)); } while (0)
 #define VL_IN8(n,m,l) CData n
 #define VL_OUT8(n,m,l) CData n
 #define VL_IN16(n,m,l) SData n
@@ -148,12 +156,12 @@ def verilate(sources, top, prefix, workdir, manifest, extra_args=(), with_prelud
                 continue
             if "VlUnpacked" in t or "VlWide" in t:
                 raise ExtractionError("verilator header %s: unsupported member %r" % (name, t))
-            t2 = t.replace("VlTriggerVec<1>", "VlTriggerVec1")
+            t2 = re.sub(r"VlTriggerVec<([1-8])>", r"VlTriggerVec\1", t)
             if t2 != t:
-                fire("VlTriggerVec<1>", 1)
+                fire("VlTriggerVec<N>", 1)
             t2 = re.sub(r"\* const vlSymsp;", "* vlSymsp;", t2)
             t2 = re.sub(r" = (false|0);", ";", t2)
-            if not re.match(r"(VL_(IN|OUT)\d*\(\w+,\d+,\d+\);|(CData|SData|IData|QData)/\*[^*]*\*/ \w+;|VlTriggerVec1 \w+;|\w+\* \w+;|\w+\s+\w+;|bool \w+;|uint32_t \w+;|(CData|SData|IData|QData) \w+\[\d+\]; /\*.*\*/)$", t2):
+            if not re.match(r"(VL_(IN|OUT)\d*\(\w+,\d+,\d+\);|(CData|SData|IData|QData)/\*[^*]*\*/ \w+;|VlTriggerVec[1-8] \w+;|\w+\* \w+;|\w+\s+\w+;|bool \w+;|uint32_t \w+;|(CData|SData|IData|QData) \w+\[\d+\]; /\*.*\*/)$", t2):
                 raise ExtractionError("verilator header %s: member not understood: %r" % (name, t))
             lines.append("  " + t2)
         structs[name] = lines
@@ -194,15 +202,23 @@ def verilate(sources, top, prefix, workdir, manifest, extra_args=(), with_prelud
         fire("unused VlWide temp", n)
         for pat, rep, nm in [
             (r"(\w+)\.at\((\w+)\)", r"\1.m_flags[\2]", ".at()"),
-            (r"([\w>\-]+)\.any\(\)", r"(\1.m_flags[0])", ".any()"),
-            (r"([\w>\-]+)\.clear\(\);", r"\1.m_flags[0] = 0;", ".clear()"),
-            (r"([\w>\-]+)\.set\(([\w>\-]+)\);", r"\1.m_flags[0] |= \2.m_flags[0];", ".set()"),
-            (r"([\w>\-]+)\.andNot\(([\w>\-]+), ([\w>\-]+)\);", r"\1.m_flags[0] = \2.m_flags[0] && !\3.m_flags[0];", ".andNot()"),
-            (r"VlTriggerVec<1>", "VlTriggerVec1", "VlTriggerVec<1>"),
+            (r"([\w>\-]+)\.any\(\)", r"VL_TV_ANY(\1)", ".any()"),
+            (r"([\w>\-]+)\.clear\(\);", r"{\n#define VL_E_(k) 0\n VL_TV_ALL(\1, VL_E_);\n#undef VL_E_\n}", ".clear()"),
+            (r"([\w>\-]+)\.set\(([\w>\-]+)\);", r"{\n#define VL_E_(k) (VL_TV_F(\1, k) || VL_TV_F(\2, k))\n VL_TV_ALL(\1, VL_E_);\n#undef VL_E_\n}", ".set()"),
+            (r"([\w>\-]+)\.andNot\(([\w>\-]+), ([\w>\-]+)\);", r"{\n#define VL_E_(k) (VL_TV_F(\2, k) && !VL_TV_F(\3, k))\n VL_TV_ALL(\1, VL_E_);\n#undef VL_E_\n}", ".andNot()"),
+            (r"VlTriggerVec<([1-8])>", r"VlTriggerVec\1", "VlTriggerVec<N>"),
             (r"for \(int (\w+) = 0; \1 < (\d+); \+\+\1\) \{\s*vlSelf->(\w+)\[\1\] = VL_RAND_RESET_I\(\d+\);\s*\}", r"VL_HAVOC_ARRAY(vlSelf->\3, \2);", "array reset loop"),
         ]:
             s, n = re.subn(pat, rep, s)
             fire(nm, n)
+        # small constant-bound initialisation loops (e.g. __Vm_traceActivity) become straight-line code
+        def _unroll(m):
+            n = int(m.group(2))
+            if n > 64:
+                return m.group(0)
+            fire("small init loop unrolled", 1)
+            return " ".join("vlSelf->%s[%d] = %s;" % (m.group(3), k, m.group(4)) for k in range(n))
+        s = re.sub(r"for \(int (\w+) = 0; \1 < (\d+); \+\+\1\) \{\s*vlSelf->(\w+)\[\1\] = ([\w()]+);\s*\}", _unroll, s)
         for (cn, fn), d in arrays.items():
             s = _wrap_index(s, fn, d, idxcounts)
         if re.search(r"std::|VlWide|VL_CVT_PACK|VL_WRITEF|VL_PRINTF|Verilated::", s):
